@@ -58,8 +58,8 @@ RULE_GROUPS: Dict[str, Callable] = {
     'st.store_contract': st.rule_store_contract,
     'rd.launch_gated': rd.rule_launch_gated,
     'rd.field_agreement': rd.rule_field_agreement,
-    'rd.switch_indirection': rd.rule_switch_indirection,
-    'rd.kwargs_from_edges': rd.rule_kwargs_from_edges,
+    'rd.switch_indirection': st.rule_switch_indirection_semantic,
+    'rd.kwargs_from_edges': st.rule_kwargs_semantics,
     'rd.filtered_view': rd.rule_filtered_view,
     'rd.error_gate_siblings': rd.rule_error_gate_siblings,
     'rd.subgraph_node_set': rd.rule_subgraph_node_set,
